@@ -1,10 +1,13 @@
 """C09 -- printf and sprintf format like C printf; print uses OFMT.
 
 spec/Printf.tla (format scanner as a state machine; the C conversions d i o x X u c s e E f g G on the exact decimal
-numbers of Values.tla; argument consumption incl. '*'; errors), PrintfCases.tla (families), MC_Printf (totality,
-scanner round trip, width/justification and conversion laws), Gen_Printf (exported predictions replayed through
-printf and sprintf).  The specification's predictions are first compared with the C library (harness/c09/cgate.c,
-compiled here): a disagreement is a defect of the specification and stops the check with exit 2.
+numbers of Values.tla applied to arguments of every KIND of the value model -- number, string constant, text from input
+(strnum), uninitialised --; argument consumption incl. '*'; errors; print lines under an OFMT text in the default, CSV and
+TSV output modes), PrintfCases.tla (families), MC_Printf (totality, scanner round trip, width/justification, conversion,
+argument-kind and print laws), Gen_Printf (exported predictions replayed through printf and sprintf, runs of several calls
+in one interpreter, print lines), Trace_Printf (recorded runs).  The specification's predictions are first compared with
+the C library (harness/c09/cgate.c, compiled here): a disagreement is a defect of the specification and stops the check
+with exit 2.
 """
 import copy, json, os, subprocess
 from vlib import MachineryError
@@ -12,6 +15,12 @@ from vlib import MachineryError
 
 def corrupt(case, rnd):
     c = copy.deepcopy(case)
+    if c.get('fam') == 'q':
+        # a run: corrupt the prediction of one of its calls
+        i = rnd.randrange(len(c['calls']))
+        c['calls'][i] = corrupt(dict(c['calls'][i], fam='k'), rnd)
+        return c
+    c.pop('alts', None)          # the corrupted prediction must not be excused by another dialect
     if c.get('err'):
         c['err'] = False
         c['out'] = [91, 93]
@@ -28,7 +37,7 @@ def corrupt(case, rnd):
 
 def corrupt_event(ev, rnd):
     e = copy.deepcopy(ev)
-    if e.get('ev') != 'step' or e.get('err'):
+    if e.get('ev') not in ('step', 'print') or e.get('err'):
         return None
     e['out'] = e['out'] + [122]
     return e
@@ -38,11 +47,16 @@ def canon(x):
     return json.dumps(x, sort_keys=True, separators=(',', ':'))
 
 
-def trace_selftest(ctx, module, events, rejected_lines, label, corrupt_ev):
+def trace_selftest(ctx, module, events, rejected_lines, label, corrupt_ev, only='step'):
     """Binding demonstration for the trace direction (vlib only runs its own when nothing was rejected)."""
     rnd = __import__('random').Random(ctx.seed)
     cand = [i for i, e in enumerate(events) if e.get('ev') == 'step' and (i + 1) not in rejected_lines]
     rnd.shuffle(cand)
+    # one sprintf call and one print statement
+    prints = [i for i, e in enumerate(events) if e.get('ev') == 'print' and (i + 1) not in rejected_lines]
+    rnd.shuffle(prints)
+    if only == 'print':
+        cand = prints
     for i in cand[:50]:
         ev2 = corrupt_ev(events[i], rnd)
         if ev2 is None:
@@ -69,20 +83,36 @@ def trace_selftest(ctx, module, events, rejected_lines, label, corrupt_ev):
 
 def run(ctx):
     q = ctx.quick
-    ctx.rule = ('a case is one directive %[flags][width][.precision]conversion (32 flag sets x widths {none, 1, 7, *=6, *=-6} x '
-                'precisions {none, ".", .0, .2, .10, .*=3, .*=-1} x d i o x X u c s e E f g G) applied to one of 8-16 arguments of its '
-                'class (integers to the int64 limits, fractions, rounding ties, numeric/non-numeric/empty/multi-byte strings; '
-                's and c also in chars mode), one of 31 multi-directive / erroneous formats, or one print under an OFMT; '
-                'exported by TLC from Gen_Printf with the predicted bytes or error, run through printf and sprintf. '
-                'Distinct by content; non-trivial when the directive has a flag, width or precision (or is multi-directive / print of a fraction)')
+    ctx.rule = ('a case is (d) one directive %[flags][width][.precision]conversion (32 flag sets x widths {none, 1, 7, *=6, *=-6} x '
+                'precisions {none, ".", .0, .2, .10, .*=3, .*=-1} x d i o x X u c s e E f g G) applied to one of 8-16 constant arguments of '
+                'its class (integers to the int64 limits, fractions, rounding ties, numeric/non-numeric/empty/multi-byte strings; '
+                's and c also in chars mode); (k) one directive of a smaller grid (quick: 4 flag sets x 3 widths x 3 precisions; thorough: '
+                'a quarter of the full grid) applied to each of 15 texts FROM INPUT (numeric-looking, blank-padded, exponent form, '
+                'hex / inf / NBSP-padded = open forms, numeric prefix only, non-numeric, multi-byte, empty), to the string constants and '
+                'numbers of the same spelling and to an unset variable -- every input text is really read from input, once as a getline '
+                'variable, a field, a split() element and a Config.Vars (-v) variable; (m) one of 31 multi-directive / erroneous formats; '
+                '(q) a run of 3-5 calls in ONE interpreter: one format on arguments of different kinds, or two formats that differ only '
+                'in the conversion letter (c/s, u/d, i/d, u/i, x/X, e/E, g/f in both orders, 5 shapes); (p) one print line: 50 argument lists '
+                '(non-integral, integral, huge numbers; strings incl. ones CSV must quote; input texts; unset) x 11 OFMT texts (incl. %g/%G '
+                'without precision, text around the directive, leading blanks) x 3 CONVFMT texts x output mode default (2 OFS) / CSV / TSV, '
+                'the mode selected through Config.OutputMode and through OUTPUTMODE; (v) %s of a number under a CONVFMT text. '
+                'Exported by TLC from Gen_Printf with the predicted bytes or error, run through printf and sprintf. '
+                'Distinct by content; non-trivial when the directive has a flag, width or precision, the argument is input text, the '
+                'format is multi-directive, the case is a run, or a non-integral number is printed')
     ctx.assumptions += [
         'numbers are exact decimals (Values.tla); results the specification cannot know exactly (more than 15 significant digits of '
         'an inexact value, decimal ties on inexact values, inf/nan spellings, integer conversions beyond int64) are not exported',
         'flag combinations the C standard leaves undefined (0 or # with s/c, # with d/i/u) are judged by glibc\'s behaviour '
         '(blank padding, flag ignored), which every C-based awk shows',
-        '%c with a precision, %c of an empty string or of a code outside 0-255 (bytes) / the BMP (chars), %5%, length modifiers, '
-        '%n are not generated; in chars mode a non-ASCII %s with width/precision is not judged (C counts bytes, AWK characters); '
-        'in bytes mode widths and precisions count bytes as in C',
+        '%c with a precision, %c of an empty string / of an unset variable or of a code outside 0-255 (bytes) / the BMP (chars), %5%, '
+        'length modifiers, %n are not generated; in chars mode a non-ASCII %s with width/precision is not judged (C counts bytes, AWK '
+        'characters); in bytes mode widths and precisions count bytes as in C',
+        'argument kinds: text from input that looks numeric (Values.WholeParse) is a number, any other input text a string; on the '
+        'forms POSIX leaves open (0x.., inf/nan, NBSP blanks -- in input text and in string constants) the result of ANY dialect of '
+        'Values.tla is accepted (case field alts), and a case with an alternative the specification cannot predict is not exported',
+        'print: OFMT / CONVFMT texts are restricted to literal text around exactly one floating-point directive without * (anything '
+        'else is undefined in POSIX); CSV / TSV quoting is Csv.tla (RFC 4180 as encoding/csv writes it); ORS is not varied and TAB / '
+        'newline never occur in printed texts; the spelling of inf / nan is not judged; print > file and print | cmd are not exercised',
         'sanity gate: every single-directive prediction is compared with glibc printf on the argument as the specification '
         'converted it; a disagreement stops the check with exit 2',
     ]
@@ -95,10 +125,16 @@ def run(ctx):
     if p.returncode != 0:
         raise MachineryError('cannot compile cgate.c:\n' + p.stdout[-2000:])
     # 1. the model
-    ctx.tlc('MC_Printf', ctx.cfg('MC_Printf', constants={'McFull': 'FALSE' if q else 'TRUE'}), timeout=1500, heap='8g')
+    if os.environ.get('VERIF_SKIP_MODEL'):      # development aid for runs on seeded changes: the model does not depend on the code
+        ctx.notes.append('model run skipped (VERIF_SKIP_MODEL)')
+    else:
+        ctx.tlc('MC_Printf', ctx.cfg('MC_Printf', constants={'McFull': 'FALSE' if q else 'TRUE'}), timeout=1500, heap='8g')
     # 2. spec -> code
     ns = 8 if q else 1
-    gen = ctx.cfg('Gen_Printf', constants={'NStrata': ns, 'Stratum': ctx.seed % ns})
+    # family k: the small grid in full (quick), a quarter of the full grid (thorough)
+    ks = 1 if q else 4
+    gen = ctx.cfg('Gen_Printf', constants={'NStrata': ns, 'Stratum': ctx.seed % ns, 'KFull': 'FALSE' if q else 'TRUE',
+                                           'KStrata': ks, 'KStratum': ctx.seed % ks})
     ctx.tlc('Gen_Printf', gen, capture='cases.ndjson', timeout=3000, heap='8g')
     ctx.cov['exhaustive'] = not q
     # 2a. sanity gate: specification vs the C library
@@ -117,14 +153,29 @@ def run(ctx):
         raise MachineryError(f"C gate covered only {g['gated']} of {g['cases']} cases")
     # 2b. replay on the real code
     ctx.replay('gated.ndjson', label='gen-printf', min_cases=5000, corrupt=corrupt)
-    # 3. code -> spec: sequences of sprintf calls recorded in one interpreter each (format cache), validated by TLC
+    # the binding self-test once more per new family (the common one samples all families together)
+    fams = {}
+    for line in open(ctx.path('gated.ndjson')):
+        fm = json.loads(line).get('fam')
+        if fm in ('k', 'q', 'p', 'v') and len(fams.setdefault(fm, [])) < 300:
+            fams[fm].append(line)
+    for fm in ('k', 'q', 'p', 'v'):
+        if not fams.get(fm):
+            raise MachineryError(f'Gen_Printf exported no case of family {fm}')
+        ff = ctx.path(f'family_{fm}.ndjson')
+        open(ff, 'w').writelines(fams[fm])
+        ctx.selftest(ff, 'C09', corrupt, f'gen-printf-{fm}', k=6)
+    # 3. code -> spec: runs of sprintf calls and print statements recorded in one interpreter each (format cache, output
+    # modes), validated by TLC
     ntr = 30 if q else 300
     ctx.harness(['C09', 'record', '-seed', str(ctx.seed), '-n', str(ntr), '-out', ctx.path('trace.ndjson')])
     rejects = ctx.validate_traces('Trace_Printf', 'Trace_Printf', 'trace.ndjson', label='trace-printf', timeout=2400,
                                   corrupt_event=corrupt_event)
     events = [json.loads(x) for x in open(ctx.path('trace.ndjson')) if x.strip()]
+    rejected_lines = {r['line'] for r in rejects}
+    trace_selftest(ctx, 'Trace_Printf', events, rejected_lines, 'trace-printf', corrupt_event, only='step')
+    trace_selftest(ctx, 'Trace_Printf', events, rejected_lines, 'trace-printf-print', corrupt_event, only='print')
     if rejects:
-        trace_selftest(ctx, 'Trace_Printf', events, {r['line'] for r in rejects}, 'trace-printf', corrupt_event)
         # classify: a rejected call that also disagrees when made alone in a fresh interpreter is an ordinary
         # formatting deviation (same signatures as the replay direction); one that agrees alone depends on the
         # calls before it, i.e. on the memoised format translation
@@ -142,6 +193,13 @@ def run(ctx):
             ctx.sig_counts[fl['sig']] = ctx.sig_counts.get(fl['sig'], 0) + 1
         for r in rejects:
             if canon(r['info']) in alone:
+                continue
+            if r['info'].get('fam') == 'p':
+                ctx.add_failure('C09/print/sequence-dependent',
+                                f"statement {r['trace'][r['pos']].get('k')} of a recorded run: the printed line differs from the "
+                                f"specification although the same print alone in a fresh interpreter agrees",
+                                case=r['info'], expected=r['info']['out'], observed=dict(line=r['trace'][r['pos']].get('out'),
+                                                                                         run=r['trace'][:r['pos'] + 1]))
                 continue
             calls = []
             for e in r['trace'][:r['pos']]:
